@@ -177,6 +177,19 @@ def convert(key, obj):
         raise ValueError(key)
 
 
+def rewrap(key, obj):
+    """a new wrapper around the (already converted) inner object of obj, through the public constructors; None where
+       the object kind has no such route (master-level Bip44 objects: a public-only object below account level is
+       refused by the constructor)"""
+    if key[:4] in ("b44a", "b49a", "b84a"):
+        return type(obj)(obj.Bip32Object(), obj.CoinConf())
+    if key == "shelley":
+        sh = CardanoShelley.FromCip1852Object(obj._verif_cip)
+        sh._verif_cip = obj._verif_cip
+        return sh
+    return None
+
+
 CONVERTIBLE = [k for k in BUILDERS if k not in ("monero", "ev1")]
 
 # ----------------------------------------------------------------------------------- catalogue
@@ -409,7 +422,16 @@ def execute(history, oracle=True, shared=None):
                     o2 = build(op.key)
                     if op.key in converted:
                         convert(op.key, o2)
-                    fresh.append(run_call(op.fn, o2))
+                    fr = run_call(op.fn, o2)
+                    if op.key in converted:
+                        # the same logical state reached by the other route: a wrapper created AFTER the conversion
+                        # (what a wrapper remembered from before the conversion must not show; seeded change C15-7)
+                        o3 = rewrap(op.key, o2)
+                        if o3 is not None:
+                            fr3 = run_call(op.fn, o3)
+                            if fr3 != fr:
+                                fr = ["route-dependent", fr, fr3]
+                    fresh.append(fr)
                 else:
                     fresh.append(None)
         return res, (fresh if oracle else None), list(MUTATIONS)
